@@ -150,4 +150,7 @@ def cases(tier, seed):
                 for method in ('CORRELATION', 'xcorr'):
                     out.append(Case("wiener-khinchin:%s:%s:N=%d:NFFT=%d" % (method, 'cx' if cplx else 're', N, n),
                                     case_wiener_khinchin, dict(N=N, n=n, cplx=cplx, method=method), timeout=120 if q else 600))
+    from .common import reuse_cases, Call
+    out += reuse_cases([("speriodogram", Call('speriodogram', NFFT=4, detrend=False, scale_by_freq=False), 3, True),
+                        ("speriodogram", Call('speriodogram', NFFT=4, detrend=True, scale_by_freq=False), 3, False)], q)
     return out
